@@ -169,7 +169,8 @@ def vcv_rules(repo, rep, Rr):
             got = ev.call_function(f, {ps[0]: sym_mat('s', shp[0], shp[1]), ps[1]: Rat.sym('lat'), ps[2]: Rat.sym('lon')})
             key = 'R-GUARD::geodepy/statistics.py::%s::shape%dx%d' % (fname, shp[0], shp[1])
             from ..symval import NoneV
-            if isinstance(got, NoneV):
+            if isinstance(got, NoneV) or getattr(ev, 'raised', None):
+                # (a raise reached with no symbolic condition open - in the function itself or in a helper it hands the matrix to)
                 rep.holds('R-GUARD', key, w, 'a %dx%d input raises (no value is returned)' % shp)
             else:
                 rep.violated('R-GUARD', key, w, 'a %dx%d input is not rejected' % shp, expected='ValueError', actual=show(got, 2, 100))
